@@ -1,5 +1,6 @@
 import JunoModel.Tie.BitsCommon
 import JunoModel.C19.Model
+import JunoModel.C19.ModelUnits
 /-!
 C19 tie: `nextPowerOfTwo` of consensus/propeller/merkle/merkle.go (`if n <= 2 { return 2 }; return 1 <<
 bits.Len(uint(n-1))`, Go `int`), REGENERATED from the source on every check run, is the model's `nextPow2` for
@@ -49,6 +50,59 @@ theorem nextPowerOfTwo_eq (n : Nat) (h : n < 2 ^ 62) :
       revert k
       decide
     exact this
+
+/-! ## Shard counts of `NewScheduler` and the receive threshold -/
+
+private theorem toInt_max (a b : Int64) : (max a b).toInt = max a.toInt b.toInt := by
+  have e : max a b = if a ≤ b then b else a := rfl
+  rw [e]
+  by_cases h : a ≤ b
+  · rw [if_pos h]; rw [Int64.le_iff_toInt_le] at h; omega
+  · rw [if_neg h]; rw [Int64.le_iff_toInt_le] at h; omega
+
+/-- `numDataShards := max(1, (totalNodes-1)/3)`: the model's `k` for every committee size below 2^62. -/
+theorem numDataShards_eq (n : Nat) (h : n < 2 ^ 62) (h1 : 1 ≤ n) :
+    (schedNumDataShards (Int64.ofNat n)).toInt = ((max 1 ((n - 1) / 3) : Nat) : Int) := by
+  have hn : (Int64.ofNat n).toInt = (n : Int) := Int64.toInt_ofNat_of_lt (by omega)
+  have e1 : (1 : Int64).toInt = 1 := by decide
+  have e3 : (3 : Int64).toInt = 3 := by decide
+  have hsub : (Int64.ofNat n - 1).toInt = ((n - 1 : Nat) : Int) := by
+    rw [Int64.toInt_sub, hn, e1]
+    have : ((n : Int) - 1) = ((n - 1 : Nat) : Int) := by omega
+    rw [this]; apply Int.bmod_eq_of_le <;> omega
+  have hdiv : ((Int64.ofNat n - 1) / 3).toInt = (((n - 1) / 3 : Nat) : Int) := by
+    rw [Int64.toInt_div, hsub, e3, Int.tdiv_eq_ediv_of_nonneg (by omega)]
+    have : (((n - 1 : Nat) : Int) / 3) = (((n - 1) / 3 : Nat) : Int) := by omega
+    rw [this]; apply Int.bmod_eq_of_le <;> omega
+  simp only [schedNumDataShards]
+  rw [toInt_max, hdiv, e1]
+  omega
+
+/-- `numCodingShards := max(0, totalNodes-1-numDataShards)`: the model's `c = total - 1 - k` (natural
+subtraction: 0 when `k` exceeds it). -/
+theorem numCodingShards_eq (n k : Nat) (h : n < 2 ^ 62) (hk : k < 2 ^ 62) (h1 : 1 ≤ n) :
+    (schedNumCodingShards (Int64.ofNat n) (Int64.ofNat k)).toInt = ((n - 1 - k : Nat) : Int) := by
+  have hn : (Int64.ofNat n).toInt = (n : Int) := Int64.toInt_ofNat_of_lt (by omega)
+  have hkk : (Int64.ofNat k).toInt = (k : Int) := Int64.toInt_ofNat_of_lt (by omega)
+  have e1 : (1 : Int64).toInt = 1 := by decide
+  have e0 : (0 : Int64).toInt = 0 := by decide
+  have hsub : (Int64.ofNat n - 1).toInt = (n : Int) - 1 := by
+    rw [Int64.toInt_sub, hn, e1]; apply Int.bmod_eq_of_le <;> omega
+  have hsub2 : (Int64.ofNat n - 1 - Int64.ofNat k).toInt = (n : Int) - 1 - k := by
+    rw [Int64.toInt_sub, hsub, hkk]; apply Int.bmod_eq_of_le <;> omega
+  simp only [schedNumCodingShards]
+  rw [toInt_max, hsub2, e0]
+  omega
+
+/-- `ReceiveThreshold` above three peers: twice the data shards. -/
+theorem receiveThresholdLarge_eq (k : Nat) (hk : k < 2 ^ 61) :
+    (schedReceiveThresholdLarge (Int64.ofNat k)).toInt = ((k * 2 : Nat) : Int) := by
+  have hkk : (Int64.ofNat k).toInt = (k : Int) := Int64.toInt_ofNat_of_lt (by omega)
+  have e2 : (2 : Int64).toInt = 2 := by decide
+  simp only [schedReceiveThresholdLarge]
+  rw [Int64.toInt_mul, hkk, e2]
+  have : ((k : Int) * 2) = ((k * 2 : Nat) : Int) := by omega
+  rw [this]; apply Int.bmod_eq_of_le <;> omega
 
 example : (merkleNextPow2 5).toInt = 8 ∧ (merkleNextPow2 8).toInt = 8 ∧ (merkleNextPow2 9).toInt = 16 ∧
     (merkleNextPow2 0).toInt = 2 := by decide
